@@ -265,6 +265,30 @@ theorem dist_getitem_covariances (d : Dist α) (hj : d.joint = true) (hn : d.nam
     exact pickDist_cov d hj hn _ ha hb (by simpa [List.mem_eraseDups] using hai)
       (by simpa [List.mem_eraseDups] using hbi)
 
+/-! ## Selection is restriction to a name SET: the order in which the caller lists names is irrelevant -/
+
+/-- `rvs[ind]`, `rvs.unjoin(inds)` and `rvs.join(inds, …)` depend on the listed names only as a set:
+    any order, any repetition. -/
+theorem selection_order_invariant (r : RVs α) (inds inds' : List String) (hm : ∀ x, x ∈ inds ↔ x ∈ inds')
+    (f : Fill α) :
+    getitem r inds = getitem r inds' ∧ unjoin r inds = unjoin r inds' ∧ join r inds f = join r inds' f :=
+  ⟨getitem_congr (contains_congr hm) r, unjoin_congr (contains_congr hm) r, join_congr hm r f⟩
+
+/-- `JointNormalDistribution.__getitem__(collection)` gives the same distribution (or the same
+    refusal) for every order in which the names are listed … -/
+theorem dist_getitem_order_invariant (d : Dist α) (index index' : List String) (hp : index'.Perm index) :
+    distGetitem d index' = distGetitem d index :=
+  distGetitem_congr d hp
+
+/-- … namely the restriction of the labelled covariance to the listed set: names in block order and,
+    for any two listed names, the (co)variance they have in the block — whatever the listing order. -/
+theorem dist_getitem_is_restriction (d : Dist α) (hj : d.joint = true) (hn : d.names.Nodup)
+    (index index' : List String) (hp : index'.Perm index) (res : Dist α) (h : distGetitem d index' = .ok res)
+    (a b : String) (ha : a ∈ d.names) (hb : b ∈ d.names) (hai : a ∈ index) (hbi : b ∈ index) :
+    (res = d ∨ res.names = d.names.filter (index.eraseDups.contains ·)) ∧ res.getCov a b = d.getCov a b := by
+  rw [distGetitem_congr d hp] at h
+  exact ⟨dist_getitem_names d index res h, dist_getitem_covariances d hj hn index res h a b ha hb hai hbi⟩
+
 /-! ## The overall covariance matrix -/
 
 /-- `_calc_covariance_matrix` is the block-diagonal composition of the distributions, for any
